@@ -70,6 +70,9 @@ func Parse(obj types.Object, opts *ParseOpts, localOpts LocalOpts) (*Definition,
 	if !ok {
 		return nil, formatErr("must be a function")
 	}
+	if sig.Variadic() {
+		return nil, formatErr("must not be variadic")
+	}
 	resultsLen := sig.Results().Len()
 
 	methodDef.TypeParams = sig.TypeParams().Len() > 0
